@@ -5,7 +5,11 @@ pid, name = sys.argv[1], sys.argv[2]
 n = int(sys.argv[3]) if len(sys.argv) > 3 else 2
 # optional 4th argument "interaction": a generic steer (not derived from anything in /verif) towards less obvious sites
 steer = ""
-if len(sys.argv) > 4 and sys.argv[4] == "interaction":
+if len(sys.argv) > 4 and sys.argv[4] == "environment":
+    steer = """
+For this round: at least one of your changes must depend on PROCESS-LEVEL or ENVIRONMENT state rather than on the arguments of a single call - module-level or class-level state shared by all instances, import order, numpy / astropy / dask global settings (floating-point error state, unit equivalencies, time or IERS settings, the scheduler or number of workers in use), environment variables, the current working directory, or files written earlier in the same process. And at least one must be triggered by a DEGENERATE SIZE OR VALUE that ordinary runs do not contain: an empty batch, a batch of exactly one event, a batch that crosses an internal buffer or partition size, repeated identical events, a value exactly on a table node / threshold / layer boundary, a signed zero, a subnormal, or the largest / smallest value the configuration allows.
+"""
+elif len(sys.argv) > 4 and sys.argv[4] == "interaction":
     steer = """
 For this round: at least one of your changes must live in an INTERACTION rather than in a single formula - between two calls on one object, between two objects or two stages of the pipeline, between the library and its environment (files, the process, configuration objects that outlive a call, the dtype / memory layout / length of the arrays passed in), or between two edits that are each harmless alone. And at least one must sit at a code site that is NOT the most obvious function for this property: a helper, decorator or utility it depends on, the wiring in compute.py or the command line, a constructor, or a data-handling routine.
 """
